@@ -15,6 +15,7 @@
 #include "alloc.h"
 #include "c04_drv.h"
 #include "c04_fix.h"
+#include "ref/lzma_adv.h"
 #include <sys/stat.h>
 
 using namespace vg;
@@ -648,6 +649,12 @@ static void make_seeds(const std::string &dir) {
 		put_seed(dir, "vli-0", E_VLI, 0, 0, 0, 0, 0, v1, 1); put_seed(dir, "vli-128", E_VLI, 0, 0, 0, 0, 0, v2, 2); put_seed(dir, "vli-max", E_VLI, 0, 0, 0, 0, 0, v3, 9); put_seed(dir, "vli-10-bytes", E_VLI, 0, 0, 0, 0, 0, v4, 10); put_seed(dir, "vli-padded", E_VLI, 0, 0, 0, 0, 0, v5, 2); }
 	{ const uint8_t l2[] = {0x10}, l1[] = {0x5D, 0, 0, 0x10, 0}, dl[] = {0x03}, bj[] = {0, 0x10, 0, 0};
 		put_seed(dir, "props-lzma2", E_PROPERTIES, 0, 0, 0, 0, 0, l2, 1); put_seed(dir, "props-lzma1", E_PROPERTIES, 0, 0, 1, 0, 0, l1, 5); put_seed(dir, "props-delta", E_PROPERTIES, 0, 0, 2, 0, 0, dl, 1); put_seed(dir, "props-x86", E_PROPERTIES, 0, 0, 3, 0, 0, bj, 4); }
+	// raw LZMA1 streams cut inside a symbol that costs ~17 input bytes (ref/lzma_adv.h): with the whole input in one exact-size
+	// block, an unchecked fast decoding loop entered with fewer bytes left than one symbol can need reads past the block
+	{ ref::AdvStream A = ref::adversarial_stream(160, 0);
+		for (unsigned t = 10; t <= 20; ++t) { char nm[64]; snprintf(nm, sizeof nm, "syn-expensive-symbol-%zu-bytes-cut-after-%u", A.e_cost, t);
+			put_seed(dir, nm, E_RAW, 0, 0, 1, 0, 4, A.bytes.data(), std::min(A.bytes.size(), A.e_first + t)); }
+		put_seed(dir, "syn-expensive-symbol-whole", E_RAW, 0, 0, 1, 0, 4, A.bytes.data(), A.bytes.size()); }
 	fprintf(stderr, "wrote %d seed cases to %s\n", g_seed_no, dir.c_str());
 }
 
